@@ -1,1 +1,547 @@
 import FluentModel.Serializer
+/-!
+# Serializer lemmas, part 1: the `TextWriter` and the indentation invariant (C04 / T1a, T1b)
+
+* every `TextWriter` primitive keeps `indentLevel` (except `indent`/`dedent`, by ±1);
+* every serializer function returns `some` writer with the `indentLevel` it was given
+  (mutual structural induction over `Inline`/`Expr`/`Variant`/`PatElem`), hence `dedent`
+  never underflows and `serialize` never panics;
+* the exact buffer effect of `writeLiteral`, `newline`, `writeCharIntoIndent`.
+-/
+namespace FluentProofs.Ser
+open FluentModel FluentModel.Syntax FluentModel.Syntax.Ser
+
+/-! ## `indentLevel` bookkeeping of the primitives -/
+
+@[simp] theorem pushAll_indentLevel (w : Writer) (bs : Bytes) : (w.pushAll bs).indentLevel = w.indentLevel := rfl
+@[simp] theorem writeIndent_indentLevel (w : Writer) : w.writeIndent.indentLevel = w.indentLevel := rfl
+@[simp] theorem newline_indentLevel (w : Writer) : w.newline.indentLevel = w.indentLevel := rfl
+@[simp] theorem indent_indentLevel (w : Writer) : w.indent.indentLevel = w.indentLevel + 1 := rfl
+@[simp] theorem indent_buffer (w : Writer) : w.indent.buffer = w.buffer := rfl
+
+@[simp] theorem writeLiteral_indentLevel (w : Writer) (item : Bytes) :
+    (w.writeLiteral item).indentLevel = w.indentLevel := by
+  unfold Writer.writeLiteral
+  simp only []
+  split <;> split <;> rfl
+
+@[simp] theorem writeCharIntoIndent_indentLevel (w : Writer) (ch : UInt8) :
+    (w.writeCharIntoIndent ch).indentLevel = w.indentLevel := by
+  unfold Writer.writeCharIntoIndent
+  simp only []
+  split <;> rfl
+
+theorem dedent_indent (w : Writer) : w.indent.dedent = some w := by
+  simp [Writer.dedent, Writer.indent]
+
+theorem dedent_of_pos {w : Writer} (h : 1 ≤ w.indentLevel) :
+    ∃ w', w.dedent = some w' ∧ w'.indentLevel = w.indentLevel - 1 ∧ w'.buffer = w.buffer := by
+  refine ⟨{ w with indentLevel := w.indentLevel - 1 }, ?_, rfl, rfl⟩
+  simp [Writer.dedent, h]
+
+theorem dedent_eq_some {w w' : Writer} (h : w.dedent = some w') :
+    w'.indentLevel + 1 = w.indentLevel ∧ w'.buffer = w.buffer := by
+  unfold Writer.dedent at h
+  split at h
+  · cases h; exact ⟨by simp; omega, rfl⟩
+  · cases h
+
+/-! ## T1a — the indentation invariant -/
+
+/-- `r` is `some` writer whose indent level is `k` -/
+def Keeps (k : Nat) (r : Option Writer) : Prop := ∃ w', r = some w' ∧ w'.indentLevel = k
+
+theorem Keeps.some {k : Nat} {w : Writer} (h : w.indentLevel = k) : Keeps k (some w) := ⟨w, rfl, h⟩
+
+theorem Keeps.map {k : Nat} {r : Option Writer} (h : Keeps k r) (f : Writer → Writer)
+    (hf : ∀ w, (f w).indentLevel = w.indentLevel) : Keeps k (r.map f) := by
+  obtain ⟨w', rfl, h'⟩ := h
+  exact ⟨f w', rfl, by rw [hf, h']⟩
+
+theorem patternPre_indentLevel (w : Writer) (p : List (PatElem Bytes)) :
+    (patternPre w p).indentLevel = w.indentLevel + (if isMultiline p then 1 else 0) := by
+  unfold patternPre
+  simp only []
+  split <;> split <;> simp
+
+theorem patternPost_keeps (p : List (PatElem Bytes)) (w : Writer) (k : Nat)
+    (h : w.indentLevel = k + (if isMultiline p then 1 else 0)) : Keeps k (patternPost p w) := by
+  unfold patternPost
+  split
+  · rename_i hm
+    simp [hm] at h
+    obtain ⟨w', h1, h2, _⟩ := dedent_of_pos (w := w) (by omega)
+    exact ⟨w', h1, by omega⟩
+  · rename_i hm
+    simp [hm] at h
+    exact ⟨w, rfl, h⟩
+
+mutual
+
+theorem serInline_keeps (e : Inline Bytes) (w : Writer) : Keeps w.indentLevel (serInline w e) := by
+  cases e with
+  | str v => simp [serInline, Keeps]
+  | num v => simp [serInline, Keeps]
+  | var id => simp [serInline, Keeps]
+  | msg id attr => cases attr <;> simp [serInline, Keeps]
+  | fn id pos named =>
+    unfold serInline
+    obtain ⟨⟨w1, b⟩, h1, h1'⟩ := serPositional_keeps pos ((w.writeLiteral id).writeLiteral (lit "(")) false
+    simp only [h1]
+    have := serNamed_keeps named w1 b
+    simp at h1'
+    rw [h1'] at this
+    exact this.map _ (by simp)
+  | term id attr args =>
+    cases args with
+    | none => cases attr <;> simp [serInline, Keeps]
+    | some pn =>
+      obtain ⟨pos, named⟩ := pn
+      cases attr with
+      | none =>
+        unfold serInline
+        obtain ⟨⟨w1, b⟩, h1, h1'⟩ := serPositional_keeps pos
+          (((w.writeLiteral (lit "-")).writeLiteral id).writeLiteral (lit "(")) false
+        simp only [h1]
+        have := serNamed_keeps named w1 b
+        simp at h1'
+        rw [h1'] at this
+        exact this.map _ (by simp)
+      | some a =>
+        unfold serInline
+        obtain ⟨⟨w1, b⟩, h1, h1'⟩ := serPositional_keeps pos
+          (((((w.writeLiteral (lit "-")).writeLiteral id).writeLiteral (lit ".")).writeLiteral a).writeLiteral (lit "(")) false
+        simp only [h1]
+        have := serNamed_keeps named w1 b
+        simp at h1'
+        rw [h1'] at this
+        exact this.map _ (by simp)
+  | placeable e =>
+    unfold serInline
+    have := serExpr_keeps e (w.writeLiteral (lit "{"))
+    simp at this
+    exact this.map _ (by simp)
+
+theorem serPositional_keeps (xs : List (Inline Bytes)) (w : Writer) (written : Bool) :
+    ∃ r, serPositional w written xs = some r ∧ r.1.indentLevel = w.indentLevel := by
+  cases xs with
+  | nil => exact ⟨(w, written), by simp [serPositional], rfl⟩
+  | cons x xs =>
+    unfold serPositional
+    simp only []
+    obtain ⟨w2, h2, h2'⟩ := serInline_keeps x (if written then w.writeLiteral (lit ", ") else w)
+    simp only [h2]
+    obtain ⟨r, h3, h3'⟩ := serPositional_keeps xs w2 true
+    refine ⟨r, h3, ?_⟩
+    rw [h3', h2']
+    split <;> simp
+
+theorem serNamed_keeps (xs : List (Bytes × Inline Bytes)) (w : Writer) (written : Bool) :
+    Keeps w.indentLevel (serNamed w written xs) := by
+  cases xs with
+  | nil => exact ⟨w, by simp [serNamed], rfl⟩
+  | cons x xs =>
+    obtain ⟨n, v⟩ := x
+    unfold serNamed
+    simp only []
+    obtain ⟨w3, h3, h3'⟩ := serInline_keeps v
+      (((if written then w.writeLiteral (lit ", ") else w).writeLiteral n).writeLiteral (lit ": "))
+    simp only [h3]
+    have := serNamed_keeps xs w3 true
+    rw [h3'] at this
+    have e : ((((if written then w.writeLiteral (lit ", ") else w).writeLiteral n).writeLiteral (lit ": "))).indentLevel
+        = w.indentLevel := by
+      split <;> simp
+    rw [e] at this
+    exact this
+
+theorem serExpr_keeps (e : Expr Bytes) (w : Writer) : Keeps w.indentLevel (serExpr w e) := by
+  cases e with
+  | inline i => unfold serExpr; exact serInline_keeps i w
+  | select sel vs =>
+    unfold serExpr
+    obtain ⟨w1, h1, h1'⟩ := serInline_keeps sel w
+    simp only [h1]
+    obtain ⟨w3, h3, h3'⟩ := serVariants_keeps vs (((w1.writeLiteral (lit " ->")).newline).indent)
+    simp only [h3]
+    simp at h3'
+    obtain ⟨w', h4, h4', _⟩ := dedent_of_pos (w := w3) (by omega)
+    exact ⟨w', h4, by omega⟩
+
+theorem serVariants_keeps (vs : List (Variant Bytes)) (w : Writer) : Keeps w.indentLevel (serVariants w vs) := by
+  cases vs with
+  | nil => exact ⟨w, by simp [serVariants], rfl⟩
+  | cons v vs =>
+    unfold serVariants
+    obtain ⟨w1, h1, h1'⟩ := serVariant_keeps v w
+    simp only [h1]
+    have := serVariants_keeps vs w1.newline
+    simp [h1'] at this
+    exact this
+
+theorem serVariant_keeps (v : Variant Bytes) (w : Writer) : Keeps w.indentLevel (serVariant w v) := by
+  cases v with
+  | mk key value dflt =>
+    unfold serVariant
+    simp only []
+    generalize hw2 : ((((if dflt = true then w.writeCharIntoIndent 42 else w).writeLiteral (lit "[")).writeLiteral
+      (match key with | .ident n => n | .num v => v)).writeLiteral (lit "]")) = w2
+    have hw2l : w2.indentLevel = w.indentLevel := by
+      subst hw2; split <;> simp
+    obtain ⟨w3, h3, h3'⟩ := serElements_keeps value (patternPre w2 value)
+    simp only [h3]
+    rw [patternPre_indentLevel, hw2l] at h3'
+    exact patternPost_keeps value w3 _ h3'
+
+theorem serElements_keeps (es : List (PatElem Bytes)) (w : Writer) : Keeps w.indentLevel (serElements w es) := by
+  cases es with
+  | nil => exact ⟨w, by simp [serElements], rfl⟩
+  | cons e es =>
+    unfold serElements
+    obtain ⟨w1, h1, h1'⟩ := serElement_keeps e w
+    simp only [h1]
+    have := serElements_keeps es w1
+    rw [h1'] at this
+    exact this
+
+theorem serElement_keeps (e : PatElem Bytes) (w : Writer) : Keeps w.indentLevel (serElement w e) := by
+  cases e with
+  | text v => simp [serElement, Keeps]
+  | placeable e =>
+    cases e with
+    | select sel vs =>
+      unfold serElement
+      have := serExpr_keeps (.select sel vs) (w.writeLiteral (lit "{ "))
+      simp at this
+      exact this.map _ (by simp)
+    | inline i =>
+      cases i with
+      | placeable e =>
+        unfold serElement
+        have := serExpr_keeps e (w.writeLiteral (lit "{{ "))
+        simp at this
+        exact this.map _ (by simp)
+      | str v =>
+        unfold serElement
+        have := serInline_keeps (.str v) (w.writeLiteral (lit "{ "))
+        simp at this
+        exact this.map _ (by simp)
+      | num v =>
+        unfold serElement
+        have := serInline_keeps (.num v) (w.writeLiteral (lit "{ "))
+        simp at this
+        exact this.map _ (by simp)
+      | var v =>
+        unfold serElement
+        have := serInline_keeps (.var v) (w.writeLiteral (lit "{ "))
+        simp at this
+        exact this.map _ (by simp)
+      | msg a b =>
+        unfold serElement
+        have := serInline_keeps (.msg a b) (w.writeLiteral (lit "{ "))
+        simp at this
+        exact this.map _ (by simp)
+      | term a b c =>
+        unfold serElement
+        have := serInline_keeps (.term a b c) (w.writeLiteral (lit "{ "))
+        simp at this
+        exact this.map _ (by simp)
+      | fn a b c =>
+        unfold serElement
+        have := serInline_keeps (.fn a b c) (w.writeLiteral (lit "{ "))
+        simp at this
+        exact this.map _ (by simp)
+
+end
+
+/-! ### entries and resources -/
+
+theorem serPattern_keeps (p : List (PatElem Bytes)) (w : Writer) : Keeps w.indentLevel (serPattern w p) := by
+  unfold serPattern
+  obtain ⟨w3, h3, h3'⟩ := serElements_keeps p (patternPre w p)
+  simp only [h3]
+  rw [patternPre_indentLevel] at h3'
+  exact patternPost_keeps p w3 _ h3'
+
+@[simp] theorem serComment_indentLevel (pre : Bytes) (ls : List Bytes) (w : Writer) :
+    (serComment w pre ls).indentLevel = w.indentLevel := by
+  induction ls generalizing w with
+  | nil => rfl
+  | cons l ls ih =>
+    unfold serComment
+    simp only []
+    rw [ih]
+    split <;> simp
+
+theorem serAttributesGo_keeps (as : List (Attribute Bytes)) (w : Writer) :
+    Keeps w.indentLevel (serAttributesGo w as) := by
+  induction as generalizing w with
+  | nil => exact ⟨w, rfl, rfl⟩
+  | cons a as ih =>
+    unfold serAttributesGo
+    simp only []
+    obtain ⟨w2, h2, h2'⟩ := serPattern_keeps a.value
+      (((w.newline.writeLiteral (lit ".")).writeLiteral a.id).writeLiteral (lit " ="))
+    simp only [h2]
+    have := ih w2
+    simp at h2'
+    rw [h2'] at this
+    exact this
+
+theorem serAttributes_keeps (as : List (Attribute Bytes)) (w : Writer) :
+    Keeps w.indentLevel (serAttributes w as) := by
+  unfold serAttributes
+  split
+  · exact ⟨w, rfl, rfl⟩
+  · obtain ⟨w1, h1, h1'⟩ := serAttributesGo_keeps as w.indent
+    simp only [h1]
+    simp at h1'
+    obtain ⟨w', h4, h4', _⟩ := dedent_of_pos (w := w1) (by omega)
+    exact ⟨w', h4, by omega⟩
+
+theorem serMessage_keeps (m : Message Bytes) (w : Writer) : Keeps w.indentLevel (serMessage w m) := by
+  unfold serMessage
+  simp only []
+  generalize hw2 : ((match m.comment with
+      | some c => serComment w (lit "#") c
+      | none => w).writeLiteral m.id).writeLiteral (lit " =") = w2
+  have hw2l : w2.indentLevel = w.indentLevel := by
+    subst hw2; split <;> simp
+  cases m.value with
+  | none =>
+    simp only []
+    have := serAttributes_keeps m.attributes w2
+    rw [hw2l] at this
+    exact this.map _ (by simp)
+  | some v =>
+    simp only []
+    obtain ⟨w3, h3, h3'⟩ := serPattern_keeps v w2
+    simp only [h3]
+    have := serAttributes_keeps m.attributes w3
+    rw [h3', hw2l] at this
+    exact this.map _ (by simp)
+
+theorem serTerm_keeps (t : Term Bytes) (w : Writer) : Keeps w.indentLevel (serTerm w t) := by
+  unfold serTerm
+  simp only []
+  generalize hw2 : (((match t.comment with
+      | some c => serComment w (lit "#") c
+      | none => w).writeLiteral (lit "-")).writeLiteral t.id).writeLiteral (lit " =") = w2
+  have hw2l : w2.indentLevel = w.indentLevel := by
+    subst hw2; split <;> simp
+  obtain ⟨w3, h3, h3'⟩ := serPattern_keeps t.value w2
+  simp only [h3]
+  have := serAttributes_keeps t.attributes w3
+  rw [h3', hw2l] at this
+  exact this.map _ (by simp)
+
+@[simp] theorem serFreeComment_indentLevel (w : Writer) (b : Bool) (pre : Bytes) (c : List Bytes) :
+    (serFreeComment w b pre c).indentLevel = w.indentLevel := by
+  unfold serFreeComment
+  simp only []
+  split <;> simp
+
+theorem serResourceGo_keeps (withJunk : Bool) (es : List (Entry Bytes)) (w : Writer) (b : Bool) :
+    Keeps w.indentLevel (serResourceGo withJunk w b es) := by
+  induction es generalizing w b with
+  | nil => exact ⟨w, rfl, rfl⟩
+  | cons e es ih =>
+    unfold serResourceGo
+    cases e with
+    | message m =>
+      obtain ⟨w1, h1, h1'⟩ := serMessage_keeps m w
+      simp only [h1]; rw [← h1']; exact ih _ _
+    | term t =>
+      obtain ⟨w1, h1, h1'⟩ := serTerm_keeps t w
+      simp only [h1]; rw [← h1']; exact ih _ _
+    | comment c => simpa using ih (serFreeComment w b (lit "#") c) true
+    | groupComment c => simpa using ih (serFreeComment w b (lit "##") c) true
+    | resourceComment c => simpa using ih (serFreeComment w b (lit "###") c) true
+    | junk content =>
+      simp only []
+      split
+      · exact ih _ _
+      · simpa using ih (w.writeLiteral content) false
+
+/-- **T1a.** `serialize` never panics: for every resource (any tree shape whatsoever) and both
+options the model returns `some` bytes, i.e. the `expect` in `TextWriter::dedent` is unreachable. -/
+theorem serialize_isSome (withJunk : Bool) (r : Resource Bytes) : ∃ out, serialize withJunk r = some out := by
+  obtain ⟨w, h, _⟩ := serResourceGo_keeps withJunk r {} false
+  exact ⟨w.buffer.toList, by simp [serialize, h]⟩
+
+
+/-! ## T1b — what the `TextWriter` primitives do to the buffer -/
+
+/-- `n` spaces -/
+def spaces (n : Nat) : Array UInt8 := Array.replicate n 32
+
+theorem writeIndentGo_eq (n : Nat) (b : Array UInt8) : writeIndentGo n b = b ++ spaces (4 * n) := by
+  induction n generalizing b with
+  | zero => simp [writeIndentGo, spaces]
+  | succ n ih =>
+    rw [writeIndentGo, ih]
+    have : spaces (4 * (n + 1)) = #[32, 32, 32, 32] ++ spaces (4 * n) := by
+      apply Array.ext'
+      have : 4 * (n + 1) = 4 + 4 * n := by omega
+      simp [spaces, this, ← List.replicate_append_replicate]
+    rw [this, Array.append_assoc]
+
+/-- `write_indent` appends exactly `4 · indentLevel` spaces. -/
+theorem writeIndent_buffer (w : Writer) : w.writeIndent.buffer = w.buffer ++ spaces (4 * w.indentLevel) :=
+  writeIndentGo_eq _ _
+
+theorem endsWith_iff (w : Writer) (b : UInt8) : endsWith w b = true ↔ w.buffer.back? = some b := by
+  simp [endsWith]
+
+@[simp] theorem spaces_back (n : Nat) : (spaces n).back? = if n = 0 then none else some 32 := by
+  simp [spaces, Array.back?_replicate]
+
+/-- `newline` appends `\n`, preceded by a second `\r` when the buffer ends with `\r`. -/
+theorem newline_buffer (w : Writer) :
+    w.newline.buffer = w.buffer ++ (if endsWith w 13 then #[13, 10] else #[10]) := by
+  unfold Writer.newline
+  split <;> simp_all <;> apply Array.ext' <;> simp
+
+@[simp] theorem newline_endsWith (w : Writer) : endsWith w.newline 10 = true := by
+  simp [Writer.newline, endsWith]
+
+/-- **`write_literal` right after a line break**: the line starts with exactly `4 · indentLevel`
+spaces, then the literal (no `\r` is inserted). -/
+theorem writeLiteral_after_newline (w : Writer) (item : Bytes) (h : endsWith w 10 = true) :
+    (w.writeLiteral item).buffer = w.buffer ++ spaces (4 * w.indentLevel) ++ item.toArray := by
+  unfold Writer.writeLiteral
+  simp only [h, if_true]
+  have h2 : endsWith w.writeIndent 13 = false := by
+    rw [endsWith_iff] at h
+    simp [endsWith, writeIndent_buffer, Array.back?_append, h]
+    split <;> simp
+  simp [h2, Writer.pushAll, writeIndent_buffer]
+
+/-- **`write_literal` elsewhere**: the literal is appended; a `\r` is inserted first iff the buffer
+ends with `\r` and the literal starts with `\n`. -/
+theorem writeLiteral_mid_line (w : Writer) (item : Bytes) (h : endsWith w 10 = false) :
+    (w.writeLiteral item).buffer =
+      w.buffer ++ (if endsWith w 13 && item.head? == some 10 then #[13] else #[]) ++ item.toArray := by
+  unfold Writer.writeLiteral
+  simp only [h]
+  simp only [Bool.false_eq_true, if_false, Writer.pushAll]
+  split <;> simp
+
+/-- `write_literal` only appends. -/
+theorem writeLiteral_appends (w : Writer) (item : Bytes) :
+    ∃ mid, (w.writeLiteral item).buffer = w.buffer ++ mid ++ item.toArray := by
+  cases h : endsWith w 10
+  · exact ⟨_, writeLiteral_mid_line w item h⟩
+  · exact ⟨_, writeLiteral_after_newline w item h⟩
+
+/-- `newline` only appends. -/
+theorem newline_appends (w : Writer) : ∃ mid, w.newline.buffer = w.buffer ++ mid := ⟨_, newline_buffer w⟩
+
+/-! ### `String::pop` and `write_char_into_indent` -/
+
+theorem popChar_push_ascii (b : Array UInt8) (x : UInt8) (hx : (x &&& 0xC0) ≠ 0x80) : popChar (b.push x) = b := by
+  unfold popChar
+  simp only [Array.size_push]
+  rw [popCharGo]
+  simp [hx]
+
+/-- **`write_char_into_indent` at the start of a line inside indent level `k + 1`** (the only
+situation in which the serializer calls it, see `serVariants_eq_spec`): the line gets its
+`4·(k+1)` indentation spaces and the last of them is replaced by the character — nothing that was
+in the buffer before is touched. -/
+theorem writeCharIntoIndent_after_newline (w : Writer) (ch : UInt8) (k : Nat) (h : endsWith w 10 = true)
+    (hk : w.indentLevel = k + 1) :
+    (w.writeCharIntoIndent ch).buffer = w.buffer ++ spaces (4 * k + 3) ++ #[ch] := by
+  unfold Writer.writeCharIntoIndent
+  simp only [h, if_true]
+  rw [writeIndent_buffer, hk]
+  have : spaces (4 * (k + 1)) = (spaces (4 * k + 3)).push 32 := by
+    apply Array.ext'
+    have : 4 * (k + 1) = (4 * k + 3) + 1 := by omega
+    simp [spaces, this, List.replicate_succ']
+  rw [this, ← Array.push_append, popChar_push_ascii _ _ (by decide)]
+  simp
+
+/-- `write_char_into_indent` in general: when the (indented) buffer ends with a byte that is not a
+UTF-8 continuation byte, exactly that byte is replaced. -/
+theorem writeCharIntoIndent_mid_line (w : Writer) (ch x : UInt8) (b : Array UInt8) (h : w.buffer = b.push x)
+    (hx10 : x ≠ 10) (hx : (x &&& 0xC0) ≠ 0x80) :
+    (w.writeCharIntoIndent ch).buffer = b.push ch := by
+  unfold Writer.writeCharIntoIndent
+  have : endsWith w 10 = false := by simp [endsWith, h, hx10]
+  simp only [this]
+  simp [h, popChar_push_ascii _ _ hx]
+
+/-! ### the only use of `write_char_into_indent`: the `*` of a default variant -/
+
+/-- the `*` of a default variant written directly: indentation minus one space, then `*` -/
+def starIndent (w : Writer) : Writer :=
+  { w with buffer := w.buffer ++ spaces (4 * w.indentLevel - 1) ++ #[42] }
+
+/-- `serVariants` with the `*` written by `starIndent` (pure appending) instead of
+`write_char_into_indent` (which pops a character) -/
+def serVariantsSpec (w : Writer) : List (Variant Bytes) → Option Writer
+  | [] => some w
+  | .mk key value dflt :: vs =>
+    match serVariant (if dflt then starIndent w else w) (.mk key value false) with
+    | none => none
+    | some w1 => serVariantsSpec w1.newline vs
+
+theorem serVariant_default (w : Writer) (key : VKey Bytes) (value : List (PatElem Bytes)) :
+    serVariant w (.mk key value true) = serVariant (w.writeCharIntoIndent 42) (.mk key value false) := by
+  simp [serVariant]
+
+theorem writeCharIntoIndent_eq_starIndent (w : Writer) (h : endsWith w 10 = true) (hk : 1 ≤ w.indentLevel) :
+    w.writeCharIntoIndent 42 = starIndent w := by
+  obtain ⟨k, hk⟩ : ∃ k, w.indentLevel = k + 1 := ⟨w.indentLevel - 1, by omega⟩
+  have h1 := writeCharIntoIndent_after_newline w 42 k h hk
+  have h2 := writeCharIntoIndent_indentLevel w 42
+  have h3 : (starIndent w).buffer = w.buffer ++ spaces (4 * k + 3) ++ #[42] := by
+    simp [starIndent, hk]; congr 2
+  cases hw : w.writeCharIntoIndent 42 with
+  | mk b l =>
+    rw [hw] at h1 h2
+    simp at h1 h2
+    simp [starIndent, h1, h2, hk]; congr 2
+
+/-- **`write_char_into_indent` only ever replaces an indentation space.**  Whenever the variant
+list of a select expression is serialised (the writer is then at the start of a line inside indent
+level ≥ 1, and stays so between variants), `serVariants` coincides with `serVariantsSpec`, in which
+the `*` is appended after `4k − 1` spaces and no character of the buffer is ever removed. -/
+theorem serVariants_eq_spec (vs : List (Variant Bytes)) (w : Writer) (h : endsWith w 10 = true)
+    (hk : 1 ≤ w.indentLevel) : serVariants w vs = serVariantsSpec w vs := by
+  induction vs generalizing w with
+  | nil => simp [serVariants, serVariantsSpec]
+  | cons v vs ih =>
+    obtain ⟨key, value, dflt⟩ := v
+    unfold serVariants serVariantsSpec
+    have e : serVariant w (.mk key value dflt) =
+        serVariant (if dflt then starIndent w else w) (.mk key value false) := by
+      cases dflt
+      · simp
+      · simp [serVariant_default, writeCharIntoIndent_eq_starIndent w h hk]
+    rw [e]
+    obtain ⟨w1, h1, h1'⟩ := serVariant_keeps (.mk key value false) (if dflt then starIndent w else w)
+    simp only [h1]
+    apply ih
+    · simp
+    · simp [h1']; split <;> simp [starIndent, hk]
+
+/-- `serialize_expression` on a select expression, with the variants written by `serVariantsSpec` -/
+theorem serExpr_select_eq (w : Writer) (sel : Inline Bytes) (vs : List (Variant Bytes)) :
+    serExpr w (.select sel vs) =
+      match serInline w sel with
+      | none => none
+      | some w1 =>
+        match serVariantsSpec (((w1.writeLiteral (lit " ->")).newline).indent) vs with
+        | none => none
+        | some w3 => w3.dedent := by
+  rw [serExpr]
+  cases serInline w sel with
+  | none => rfl
+  | some w1 =>
+    simp only []
+    rw [serVariants_eq_spec _ _ (by simpa [endsWith] using newline_endsWith _) (by simp)]
+    rfl
+
+end FluentProofs.Ser
